@@ -82,7 +82,12 @@ func (fsEngine) Gen(r *Rand, tier string) any {
 	}
 	// files that load other files: a nested relative location resolves against
 	// the directory of the file that contains the load-file call
+	var chainNames []string
 	for f := range chainFiles {
+		chainNames = append(chainNames, f)
+	}
+	sort.Strings(chainNames) // never let map order reach a generated case
+	for _, f := range chainNames {
 		add(f, "file", "")
 	}
 	// outside names that are proper prefixes of the root's name
